@@ -26,12 +26,23 @@ CFG = dict(
          "without being equal to it is only required not to panic (tag edge=1), a probed correlation of exactly 0.5 is "
          "compared exactly (tag exact_half=1; six crafted series put it on a bisection midpoint); branch counters in the "
          "tags (dbl, mid_above, mid_below, cap, ret0). "
-         "i32 series: half_life panics in T::none() (DESIGN 5.4), reproduced by the model. nt=0 marks empty input.",
+         "i32 series: half_life panics in T::none() (DESIGN 5.4), reproduced by the model. nt=0 marks empty input. "
+         "Audit additions (own random stream, the earlier cases are unchanged): vcorr(.., Pearson) (agg.rs:44) - every pair over "
+         "{-1, 2, 3, null} of equal length 0..=2 with every min_periods 0..=len+1 and omitted, a quarter of the pairs of lengths "
+         "(3,3) (2,3) (3,2), all of (0,2) (2,0) (1,3) (3,1), 200 (1200) random pairs (independent, affine image, shorter / longer "
+         "second series), and 114 null-free pairs with omitted min_periods where one series is about half as long as the other, in "
+         "both orders (the default len/2 of the FIRST series decides); two cells (vcorr and a direct vcorr_pearson call with that "
+         "default) bit-identical and within 1e-7 of the model (tag fn=vcorr_pearson_arm); winsorize on [1,2,3], [1,null,2,3], "
+         "[2,-1,3,3,7] with q = 1, 0.75, k = -1 and a NaN parameter for every method and element type (style=crafted_reversed: "
+         "the witness [3,3,1] of C20_winsorize_scope_needed on the real code).",
     theorem_hint="Props/C20.v: C20_winsorize_quantile, C20_winsorize_median, C20_winsorize_sigma, C20_clip_laws, "
-                 "C20_quantile_bounds_ordered, C20_spearman, C20_rank_invariant, C20_spearman_invariant, "
+                 "C20_quantile_monotone, C20_spearman, C20_rank_invariant, C20_spearman_invariant, "
                  "C20_half_life_total, C20_half_life_threshold, C20_winsorize_encoding, C20_vcorr_encoding, "
                  "C20_*_opt / C20_*_i32 (Option<f64> and i32 lifts), C20_half_life_probe_sequence, C20_half_life_crossing, "
-                 "C20_autocorr_defined_iff_enough_pairs",
+                 "C20_autocorr_defined_iff_enough_pairs; audit: C20_winsorize_shape, C20_winsorize_returns, C20_winsorize_binary64, "
+                 "C20_winsorize_every_parameter, C20_winsorize_reversed_scope, C20_winsorize_scope_needed, C20_half_life_any_oracle, "
+                 "C20_half_life_panics_iff, C20_half_life_total_any_carrier, C20_half_life_binary64, C20_vcorr_pearson_arm, "
+                 "C20_vcorr_pearson_textbook",
     level_text="Proof (Coq): winsorize (model assembled from the C11-C13 models of vquantile, vmedian, vmean_var, vclip) "
                "equals map (clip lo hi) over the cast input with (lo, hi) the q / 1-q linear quantiles, median -/+ k MAD, "
                "mean -/+ k sigma of the valid data, lo <= hi (interpolated quantile monotone in q; MAD >= 0; sigma >= 0), "
@@ -49,21 +60,39 @@ CFG = dict(
                "each strictly inside the bracket; the result is the cap len-1 or a genuine down-crossing (test false at r, true "
                "at r-1 or r = 1) inside (2^(j-1), 2^j] - for the executable oracle and EVERY min_periods; the oracle itself is "
                "Pearson's r of the complete pairs (x[i+lag], x[i]), null iff fewer than max(min_periods, 2) such pairs or zero "
-               "spread, so a lag leaving exactly min_periods pairs is evaluated. Nothing is partial. "
+               "spread, so a lag leaving exactly min_periods pairs is evaluated. "
+               "Audit (notes/C20.md, Audit matrix; 33 theorems): winsorize at EVERY carrier (binary64 included), every dictionary, "
+               "method and parameter (omitted, NaN, out of range) has one of four shapes (propagated panic, Err - Quantile only -, the "
+               "cast input, one map of vclip's element function), hence WHENEVER it returns: one value per input, NaN-ness fixed, "
+               "nulls -> NaN, every output bit-identical to the cast input or on one of two bounds; at an ordered carrier (order laws "
+               "of PrimFloat.ltb from FloatAxioms) and bounds not reversed: inside the bounds, idempotent, order preserving "
+               "(C20_winsorize_binary64). Option R, every parameter: never a panic, Err exactly for Quantile with q NaN or outside "
+               "[0,1]; closed forms for every 0 <= q <= 1, every real k and k = NaN; for q in (1/2,1] and k < 0 the bounds are REVERSED "
+               "and order preservation FAILS ([1,2,3] -> [3,3,1], C20_winsorize_scope_needed, replayed on the code) - the scope "
+               "hypothesis is exactly needed. half_life over ANY oracle never runs out of fuel and panics IFF the oracle is true on the "
+               "whole doubling sequence up to the first power of two >= len (C20_half_life_panics_iff; witness), where the real "
+               "autocorrelation is null; threshold theorem for every L; totality, threshold, probe sequence at every carrier whose NaN "
+               "tests as NaN and on the run's three binary64 dictionaries (C20_half_life_binary64). The Pearson arm of vcorr = "
+               "vcorr_pearson with min_periods default len/2 of the FIRST series, zip truncation, textbook form (f64, Option, i32). "
+               "Nothing is partial. Still correspondence only: that the binary64 bounds are ordered in scope and that the binary64 "
+               "order-statistic selection does not panic (rounding); Spearman invariance at binary64. "
                "Model tied to the code by the differential run described in `rule`.",
     level_note="Trusted: Coq kernel + Reals axioms for the option-R theorems (the half-life theorems over an abstract oracle are "
                "axiom-free); the hand-written model; std's select_nth / sort post-conditions (C12); binary64 rounding is "
                "outside the theorems and absorbed by the tolerances; the EPS = 1e-14 variance floor of the Sigma method is "
                "explicit in the statement (a series with sample variance <= EPS is returned unchanged).",
     trusted=["Reals axioms of the Coq standard library under the theorems stated over option R",
+             "the standard library's specification of the primitive binary64 comparisons (FloatAxioms.ltb_spec, leb_spec, eqb_spec) "
+             "under C20_winsorize_binary64 and the non-vacuity example C20_ex_ordered_carrier",
              "binary64 rounding is not modelled by the proof instance; literals 0.01 and 3.0 are 1/100 and 3 in the model",
              "the relational comparator and the plain-Rust re-run of the search in harness/src/bin/c20.rs are additional "
              "oracles, not part of the proof"],
     assumptions=["canonical nulls (DESIGN 5.4): no Some(NaN); plain integer series are never null and half_life on them "
                  "panics in T::none() by design of the library (not claimed)",
-                 "parameters inside the quantifier: 0 <= q <= 1/2, k >= 0, min_periods >= 1 (other values are compared with "
-                 "the model but the theorems do not speak about them)",
-                 "len < 2^31 (the lag is cast to i32)"],
+                 "parameters inside the quantifier: 0 <= q <= 1/2, k >= 0 for the interval / order-preservation theorems; outside it "
+                 "the option-R theorems say what the code does (Err, reversed bounds, unchanged on NaN) and that order preservation "
+                 "fails; every min_periods (0, > len, omitted) is covered by the theorems",
+                 "len < 2^31 (the lag is cast to i32; 2usize.pow(i) <= 2 len does not overflow)"],
 )
 
 
